@@ -112,3 +112,42 @@ Definition stamp_cmd (G:graph) (purge:bool) (groups:list (list N)) (dests:option
                      | (os, None) => Err (first_err os)
                      end
        end.
+
+(* ---------- label targets: <label>@head, <label>@base ----------
+   RevisionMap._resolve_revision_number / get_current_head / _revision_for_ident as far as these two forms need them:
+   the revision that declares the label (`_map_branch_labels`: label -> revision), and for @head the heads (by
+   down_revision) that share lineage with it (filter_for_lineage(self.heads, label), include_dependencies=False) *)
+Definition label_rev (G:graph) (lab:N) : option N :=
+  option_map r_id (find (fun r => memN lab (r_labels r)) G).
+Definition heads_down (G:graph) : list N := map r_id (filter (fun r => is_nil (nextrev G (r_id r))) G).
+Fixpoint label_heads_of (G:graph) (lr:N) (hs:list N) : option (list N) :=
+  match hs with
+  | [] => Some []
+  | h :: r => match reach_set (nextrev G) G [h], reach_set (down G) G [h], label_heads_of G lr r with
+              | Some d, Some a, Some l => Some (if memN lr (d ++ a) then h :: l else l)
+              | _, _, _ => None
+              end
+  end.
+Inductive ltarget := LHead (lab:N) | LBase (lab:N).
+(* (groups, dests) for stamp_revs_gen; ECommand = ResolutionError / MultipleHeads surfacing as CommandError *)
+Definition resolve_label (G:graph) (t:ltarget) : res (list (list N) * option (list N)) :=
+  let lab := match t with LHead l => l | LBase l => l end in
+  match label_rev G lab with
+  | None => Err ECommand
+  | Some lr =>
+    match t with
+    | LBase _ => Ok ([[lr]], None)                        (* id_ = (): shares = [label]; get_revisions -> () -> [None] *)
+    | LHead _ =>
+      match label_heads_of G lr (heads_down G) with
+      | None => Err EFuel
+      | Some [] => Ok ([[lr]], None)                      (* get_current_head -> None: id_ = () *)
+      | Some [h] => Ok ([[lr; h]], Some [h])              (* shares = [label, head]; dest = head *)
+      | Some _ => Err ECommand                            (* MultipleHeads *)
+      end
+    end
+  end.
+Definition stamp_label (G:graph) (purge:bool) (t:ltarget) (rws:list N) : res (list N) :=
+  match resolve_label G t with
+  | Err e => Err e
+  | Ok (groups, dests) => stamp_cmd G purge groups dests rws
+  end.
